@@ -13,14 +13,17 @@ inductive Att (a : Abs) : Id → Prop
   | root {r : Id} : r ∈ a.roots → Att a r
   | kid {n c : Id} : Att a n → c ∈ a.kids n → Att a c
 
-/-- `φ` embeds the attached part of `a` into `a'` -/
-structure Iso (φ : Id → Id) (a a' : Abs) : Prop where
+/-- `φ` embeds the part `D` of `a` (a set of nodes containing the roots and closed under children,
+    e.g. the attached nodes) into `a'` -/
+structure Iso (D : Id → Prop) (φ : Id → Id) (a a' : Abs) : Prop where
+  droot : ∀ r, r ∈ a.roots → D r
+  dkid : ∀ n c, D n → c ∈ a.kids n → D c
   roots : a'.roots = a.roots.map φ
-  lt : ∀ n, Att a n → φ n < a'.heap.length
-  tag : ∀ n, Att a n → a'.tag (φ n) = a.tag n
-  value : ∀ n, Att a n → a'.value (φ n) = a.value n
-  ptr : ∀ n, Att a n → a'.ptr (φ n) = a.ptr n
-  kids : ∀ n, Att a n → a'.kids (φ n) = (a.kids n).map φ
+  lt : ∀ n, D n → φ n < a'.heap.length
+  tag : ∀ n, D n → a'.tag (φ n) = a.tag n
+  value : ∀ n, D n → a'.value (φ n) = a.value n
+  ptr : ∀ n, D n → a'.ptr (φ n) = a.ptr n
+  kids : ∀ n, D n → a'.kids (φ n) = (a.kids n).map φ
 
 theorem Att.lt {a : Abs} (w : AWF a) {n : Id} (h : Att a n) : n < a.heap.length := by
   induction h with
@@ -28,54 +31,55 @@ theorem Att.lt {a : Abs} (w : AWF a) {n : Id} (h : Att a n) : n < a.heap.length 
   | kid _ hc _ => exact w.kids _ _ hc
 
 /-- a well-formed document is its own renumbering -/
-theorem Iso.refl {a : Abs} (w : AWF a) : Iso id a a :=
-  ⟨by simp, fun _ h => h.lt w, fun _ _ => rfl, fun _ _ => rfl, fun _ _ => rfl, fun _ _ => by simp⟩
+theorem Iso.refl {a : Abs} (w : AWF a) : Iso (Att a) id a a :=
+  ⟨fun _ h => Att.root h, fun _ _ h hc => Att.kid h hc, by simp, fun _ h => h.lt w, fun _ _ => rfl,
+   fun _ _ => rfl, fun _ _ => rfl, fun _ _ => by simp⟩
 
-variable {φ : Id → Id} {a a' : Abs}
+variable {D : Id → Prop} {φ : Id → Id} {a a' : Abs}
 
-theorem specNWT_att {n c : Id} {t : Str} (hn : Att a n) (hc : c ∈ specNWT a n t) : Att a c :=
-  Att.kid hn (List.mem_filter.mp hc).1
+theorem specNWT_att (iso : Iso D φ a a') {n c : Id} {t : Str} (hn : D n) (hc : c ∈ specNWT a n t) : D c :=
+  iso.dkid _ _ hn (List.mem_filter.mp hc).1
 
-theorem specNWT_iso (iso : Iso φ a a') {n : Id} (t : Str) (hn : Att a n) :
+theorem specNWT_iso (iso : Iso D φ a a') {n : Id} (t : Str) (hn : D n) :
     specNWT a' (φ n) t = (specNWT a n t).map φ := by
   unfold specNWT
   rw [iso.kids n hn, List.filter_map]
   congr 1
   apply List.filter_congr
   intro c hc
-  simp only [Function.comp, iso.tag c (Att.kid hn hc)]
+  simp only [Function.comp, iso.tag c (iso.dkid _ _ hn hc)]
 
-theorem specFamilies_iso (iso : Iso φ a a') : specFamilies a' = (specFamilies a).map φ := by
+theorem specFamilies_iso (iso : Iso D φ a a') : specFamilies a' = (specFamilies a).map φ := by
   unfold specFamilies
   rw [iso.roots, List.filter_map]
   congr 1
   apply List.filter_congr
   intro r hr
-  simp only [Function.comp, iso.tag r (Att.root hr)]
+  simp only [Function.comp, iso.tag r (iso.droot _ hr)]
 
-theorem specIndividuals_iso (iso : Iso φ a a') : specIndividuals a' = (specIndividuals a).map φ := by
+theorem specIndividuals_iso (iso : Iso D φ a a') : specIndividuals a' = (specIndividuals a).map φ := by
   unfold specIndividuals
   rw [iso.roots, List.filter_map]
   congr 1
   apply List.filter_congr
   intro r hr
-  simp only [Function.comp, iso.tag r (Att.root hr)]
+  simp only [Function.comp, iso.tag r (iso.droot _ hr)]
 
-theorem foldl_ptr_iso (iso : Iso φ a a') (p : Str) :
+theorem foldl_ptr_iso (iso : Iso D φ a a') (p : Str) :
     ∀ (l : List Id) (acc : Option Id), (∀ r ∈ l, r ∈ a.roots) →
       (l.map φ).foldl (fun acc r => if a'.ptr r == p then some r else acc) (acc.map φ) =
       (l.foldl (fun acc r => if a.ptr r == p then some r else acc) acc).map φ
   | [], _, _ => rfl
   | r :: rs, acc, h => by
     simp only [List.map_cons, List.foldl_cons]
-    rw [iso.ptr r (Att.root (h r List.mem_cons_self))]
+    rw [iso.ptr r (iso.droot _ (h r List.mem_cons_self))]
     have : (if (a.ptr r == p) = true then some (φ r) else Option.map φ acc) =
         Option.map φ (if (a.ptr r == p) = true then some r else acc) := by
       split <;> rfl
     rw [this]
     exact foldl_ptr_iso iso p rs _ fun x hx => h x (List.mem_cons_of_mem _ hx)
 
-theorem specByPtr_iso (iso : Iso φ a a') (p : Str) : specByPtr a' p = (specByPtr a p).map φ := by
+theorem specByPtr_iso (iso : Iso D φ a a') (p : Str) : specByPtr a' p = (specByPtr a p).map φ := by
   unfold specByPtr
   split
   · rfl
@@ -92,7 +96,7 @@ theorem specIndividualOf_root {h j : Id} (e : specIndividualOf a h = some j) : j
     · simp at e
   · simp at e
 
-theorem specIndividualOf_iso (iso : Iso φ a a') {h : Id} (hh : Att a h) :
+theorem specIndividualOf_iso (iso : Iso D φ a a') {h : Id} (hh : D h) :
     specIndividualOf a' (φ h) = (specIndividualOf a h).map φ := by
   unfold specIndividualOf
   rw [iso.value h hh, specByPtr_iso iso]
@@ -100,11 +104,11 @@ theorem specIndividualOf_iso (iso : Iso φ a a') {h : Id} (hh : Att a h) :
   | none => rfl
   | some r =>
     simp only [Option.map_some]
-    rw [iso.tag r (Att.root (specByPtr_mem hs))]
+    rw [iso.tag r (iso.droot _ (specByPtr_mem hs))]
     split <;> rfl
 
-theorem specIsInd_iso (iso : Iso φ a a') {h : Option Id} {i : Id}
-    (hh : ∀ x, h = some x → Att a x) (hi : Att a i) :
+theorem specIsInd_iso (iso : Iso D φ a a') {h : Option Id} {i : Id}
+    (hh : ∀ x, h = some x → D x) (hi : D i) :
     specIsInd a' (h.map φ) (φ i) = specIsInd a h i := by
   cases h with
   | none => rfl
@@ -115,40 +119,40 @@ theorem specIsInd_iso (iso : Iso φ a a') {h : Option Id} {i : Id}
     | none => rfl
     | some j =>
       simp only [Option.map_some]
-      rw [iso.ptr j (Att.root (specIndividualOf_root hj)), iso.ptr i hi]
+      rw [iso.ptr j (iso.droot _ (specIndividualOf_root hj)), iso.ptr i hi]
 
-theorem specHusband_iso (iso : Iso φ a a') {f : Id} (hf : Att a f) :
+theorem specHusband_iso (iso : Iso D φ a a') {f : Id} (hf : D f) :
     specHusband a' (φ f) = (specHusband a f).map φ := by
   unfold specHusband
   rw [specNWT_iso iso _ hf, List.head?_map]
 
-theorem specWife_iso (iso : Iso φ a a') {f : Id} (hf : Att a f) :
+theorem specWife_iso (iso : Iso D φ a a') {f : Id} (hf : D f) :
     specWife a' (φ f) = (specWife a f).map φ := by
   unfold specWife
   rw [specNWT_iso iso _ hf, List.head?_map]
 
-theorem specHusband_att {f x : Id} (hf : Att a f) (h : specHusband a f = some x) : Att a x :=
-  specNWT_att hf (List.mem_of_head? h)
+theorem specHusband_att (iso : Iso D φ a a') {f x : Id} (hf : D f) (h : specHusband a f = some x) : D x :=
+  specNWT_att iso hf (List.mem_of_head? h)
 
-theorem specWife_att {f x : Id} (hf : Att a f) (h : specWife a f = some x) : Att a x :=
-  specNWT_att hf (List.mem_of_head? h)
+theorem specWife_att (iso : Iso D φ a a') {f x : Id} (hf : D f) (h : specWife a f = some x) : D x :=
+  specNWT_att iso hf (List.mem_of_head? h)
 
-theorem specHasChild_iso (iso : Iso φ a a') {f i : Id} (hf : Att a f) (hi : Att a i) :
+theorem specHasChild_iso (iso : Iso D φ a a') {f i : Id} (hf : D f) (hi : D i) :
     specHasChild a' (φ f) (φ i) = specHasChild a f i := by
   unfold specHasChild
   rw [specNWT_iso iso _ hf, List.any_map, iso.ptr i hi]
   apply any_congr_mem
   intro c hc
-  simp only [Function.comp, iso.value c (specNWT_att hf hc)]
+  simp only [Function.comp, iso.value c (specNWT_att iso hf hc)]
 
-theorem specMember_iso (iso : Iso φ a a') {f i : Id} (hf : Att a f) (hi : Att a i) :
+theorem specMember_iso (iso : Iso D φ a a') {f i : Id} (hf : D f) (hi : D i) :
     specMember a' (φ i) (φ f) = specMember a i f := by
   unfold specMember
   rw [specHasChild_iso iso hf hi, specHusband_iso iso hf, specWife_iso iso hf,
-      specIsInd_iso iso (fun x hx => specHusband_att hf hx) hi,
-      specIsInd_iso iso (fun x hx => specWife_att hf hx) hi]
+      specIsInd_iso iso (fun x hx => specHusband_att iso hf hx) hi,
+      specIsInd_iso iso (fun x hx => specWife_att iso hf hx) hi]
 
-theorem specIndFamilies_iso (iso : Iso φ a a') {i : Id} (hi : Att a i) :
+theorem specIndFamilies_iso (iso : Iso D φ a a') {i : Id} (hi : D i) :
     specIndFamilies a' (φ i) = (specIndFamilies a i).map φ := by
   unfold specIndFamilies
   rw [specFamilies_iso iso, List.filter_map]
@@ -156,9 +160,9 @@ theorem specIndFamilies_iso (iso : Iso φ a a') {i : Id} (hi : Att a i) :
   apply List.filter_congr
   intro f hf
   have : f ∈ a.roots := (List.mem_filter.mp hf).1
-  simp only [Function.comp, specMember_iso iso (Att.root this) hi]
+  simp only [Function.comp, specMember_iso iso (iso.droot _ this) hi]
 
-theorem specSpousesOf_iso (iso : Iso φ a a') {f i : Id} (hf : Att a f) (hi : Att a i) :
+theorem specSpousesOf_iso (iso : Iso D φ a a') {f i : Id} (hf : D f) (hi : D i) :
     specSpousesOf a' (φ i) (φ f) = (specSpousesOf a i f).map (Option.map φ) := by
   rw [specSpousesOf_eq, specSpousesOf_eq, specHusband_iso iso hf, specWife_iso iso hf]
   cases hh : specHusband a f with
@@ -167,8 +171,8 @@ theorem specSpousesOf_iso (iso : Iso φ a a') {f i : Id} (hf : Att a f) (hi : At
     cases hw : specWife a f with
     | none => rfl
     | some y =>
-      have ax := specHusband_att hf hh
-      have ay := specWife_att hf hw
+      have ax := specHusband_att iso hf hh
+      have ay := specWife_att iso hf hw
       simp only [Option.map_some, specSpousesHW]
       have e1 := specIsInd_iso iso (h := some x) (fun z hz => by cases hz; exact ax) hi
       have e2 := specIsInd_iso iso (h := some y) (fun z hz => by cases hz; exact ay) hi
@@ -177,28 +181,28 @@ theorem specSpousesOf_iso (iso : Iso φ a a') {f i : Id} (hf : Att a f) (hi : At
       simp only [List.map_append]
       congr 1 <;> split <;> rfl
 
-theorem specSpouses_iso (iso : Iso φ a a') {i : Id} (hi : Att a i) :
+theorem specSpouses_iso (iso : Iso D φ a a') {i : Id} (hi : D i) :
     specSpouses a' (φ i) = (specSpouses a i).map (Option.map φ) := by
   unfold specSpouses
   rw [specFamilies_iso iso, List.flatMap_map, List.map_flatMap]
   apply flatMap_congr_mem
   intro f hf
   have : f ∈ a.roots := (List.mem_filter.mp hf).1
-  exact specSpousesOf_iso iso (Att.root this) hi
+  exact specSpousesOf_iso iso (iso.droot _ this) hi
 
-theorem specIndFamilies_att {i f : Id} (h : f ∈ specIndFamilies a i) : Att a f :=
-  Att.root (List.mem_filter.mp (List.mem_filter.mp h).1).1
+theorem specIndFamilies_att (iso : Iso D φ a a') {i f : Id} (h : f ∈ specIndFamilies a i) : D f :=
+  iso.droot _ (List.mem_filter.mp (List.mem_filter.mp h).1).1
 
-theorem specParents_iso (iso : Iso φ a a') {i : Id} (hi : Att a i) :
+theorem specParents_iso (iso : Iso D φ a a') {i : Id} (hi : D i) :
     specParents a' (φ i) = (specParents a i).map φ := by
   unfold specParents
   rw [specIndFamilies_iso iso hi, List.filter_map]
   congr 1
   apply List.filter_congr
   intro f hf
-  simp only [Function.comp, specHasChild_iso iso (specIndFamilies_att hf) hi]
+  simp only [Function.comp, specHasChild_iso iso (specIndFamilies_att iso hf) hi]
 
-theorem specChildren_iso (iso : Iso φ a a') {i : Id} (hi : Att a i) :
+theorem specChildren_iso (iso : Iso D φ a a') {i : Id} (hi : D i) :
     specChildren a' (φ i) = (specChildren a i).map φ := by
   unfold specChildren specFamChildren
   rw [specIndFamilies_iso iso hi, List.filter_map, List.flatMap_map, List.map_flatMap]
@@ -206,14 +210,14 @@ theorem specChildren_iso (iso : Iso φ a a') {i : Id} (hi : Att a i) :
       List.filter (fun f => !specHasChild a f i) (specIndFamilies a i) := by
     apply List.filter_congr
     intro f hf
-    simp only [Function.comp, specHasChild_iso iso (specIndFamilies_att hf) hi]
+    simp only [Function.comp, specHasChild_iso iso (specIndFamilies_att iso hf) hi]
   rw [e]
   apply flatMap_congr_mem
   intro f hf
-  exact specNWT_iso iso _ (specIndFamilies_att (List.mem_filter.mp hf).1)
+  exact specNWT_iso iso _ (specIndFamilies_att iso (List.mem_filter.mp hf).1)
 
 /-- **Every view is invariant under renumbering.** -/
-theorem specView_iso (iso : Iso φ a a') (v : View) (hs : ∀ n, v.subject = some n → Att a n) :
+theorem specView_iso (iso : Iso D φ a a') (v : View) (hs : ∀ n, v.subject = some n → D n) :
     specView a' (v.map φ) = (specView a v).map φ := by
   cases v with
   | nodesWithTag n t =>
@@ -237,13 +241,13 @@ theorem specView_iso (iso : Iso φ a a') (v : View) (hs : ∀ n, v.subject = som
     simp only [View.map, specView, Obs.map, specFamChildren, specNWT_iso iso _ (hs f rfl), List.map_map]; rfl
 
 /-- a view that may be asked of `a` may be asked of `a'` -/
-theorem ok_iso (iso : Iso φ a a') (v : View) (hs : ∀ n, v.subject = some n → Att a n)
+theorem ok_iso (iso : Iso D φ a a') (v : View) (hs : ∀ n, v.subject = some n → D n)
     (hok : v.ok a = true) : (v.map φ).ok a' = true := by
-  have indi : ∀ i, Att a i → isIndi a i = true → isIndi a' (φ i) = true := by
+  have indi : ∀ i, D i → isIndi a i = true → isIndi a' (φ i) = true := by
     intro i hi h
     have ⟨h1, h2⟩ := isIndi_iff.mp h
     exact isIndi_iff.mpr ⟨iso.roots ▸ List.mem_map_of_mem h1, (iso.tag i hi).trans h2⟩
-  have fam : ∀ f, Att a f → isFam a f = true → isFam a' (φ f) = true := by
+  have fam : ∀ f, D f → isFam a f = true → isFam a' (φ f) = true := by
     intro f hf h
     exact isFam_iff.mpr ((iso.tag f hf).trans (isFam_iff.mp h))
   cases v with
